@@ -105,11 +105,16 @@ class World:
 
 # ---- rendering ----------------------------------------------------------------------------------
 
-def typed_list(pairs, typed=True, group=False):
+def typed_list(pairs, typed=True, group=False, bare_tail=False):
     """[[name, type], ...] -> token list."""
     out = []
     if not typed:
         return [n for n, _ in pairs]
+    if bare_tail:
+        k = len(pairs)
+        while k > 0 and pairs[k - 1][1] == "object":
+            k -= 1
+        return typed_list(pairs[:k], typed, group) + [n for n, _ in pairs[k:]]
     if group:
         i = 0
         while i < len(pairs):
@@ -137,6 +142,7 @@ def default_type_decl(pairs):
 
 def domain_tree(dom):
     typed = dom.get("typed", True)
+    bt = bool(dom.get("bare_tail"))
     t = ["define", ["domain", dom["name"]]]
     reqs = dom.get("requirements")
     if reqs is None:
@@ -152,13 +158,13 @@ def domain_tree(dom):
                 toks += ["-", parent]
         t.append(toks)
     if dom.get("constants"):
-        t.append([":constants"] + typed_list(dom["constants"], typed, dom.get("group_constants", False)))
-    t.append([":predicates"] + [[n] + typed_list(sig, typed, dom.get("group_sig", False)) for n, sig in dom["predicates"]])
+        t.append([":constants"] + typed_list(dom["constants"], typed, dom.get("group_constants", False), bt))
+    t.append([":predicates"] + [[n] + typed_list(sig, typed, dom.get("group_sig", False), bt) for n, sig in dom["predicates"]])
     if dom.get("functions"):
         # the library requires 'name - type' triples for every function parameter
         t.append([":functions"] + [[n] + typed_list(sig, True) for n, sig in dom["functions"]])
     for a in dom["actions"]:
-        node = [":action", a["name"], ":parameters", typed_list(a["params"], typed, a.get("group_params", False))]
+        node = [":action", a["name"], ":parameters", typed_list(a["params"], typed, a.get("group_params", False), bt)]
         node += [":precondition", a["pre"] if a.get("pre") is not None else []]
         node += [":effect", a["eff"]]
         t.append(node)
